@@ -13,9 +13,10 @@
 -/
 import Hy.Proofs.PortUnion
 import Hy.Proofs.Hop
+import Hy.Proofs.HopAddr
 set_option linter.unusedSimpArgs false
 namespace Hy.Props.C19
-open Hy Hy.PortUnion Hy.Hop
+open Hy Hy.PortUnion Hy.Hop Hy.HopAddr
 
 /-! ### obligations on the regenerated constants -/
 theorem const_queue : Gen.udphopPacketQueueSize = 1024 := by decide
@@ -144,23 +145,28 @@ example : parse "" = none ∧ parse "1,,2" = none ∧ parse "1-2-3" = none ∧ p
 
 /-- states reachable from a fresh connection over the address list `P` with first index
     `idx`, under any schedule whose random draws respect `rand.Intn`'s contract -/
-def Reach (P : List Nat) (idx : Nat) (sched : List Label) : St := run (initSt P idx) sched
+def Reach (P : List Dest) (idx : Nat) (sched : List Label) : St := run (initSt P idx) sched
 
-/-- `writes_in_set`: in every reachable state a `WriteTo` either fails because the
+/-- `writes_in_set`: for an address string that ResolveUDPHopAddr accepted and the address
+    list `addrs()` built from it, in every reachable state a `WriteTo` either fails because the
     connection is closed, or goes out on the NEWEST socket (the last one ListenUDPFunc
-    returned), which is open, to a port of the address list — and when the address list is
-    `Ports()` of a parsed expression, that port belongs to the denoted set.  It never
-    panics and never uses a closed socket. -/
-theorem writes_in_set (cs : List Char) (u : PU) (hparse : parseChars cs = some u)
-    (idx : Nat) (hidx : idx < (ports u).length)
-    (sched : List Label) (hs : SchedOK (ports u).length sched) :
-    let s := Reach (ports u) idx sched
+    returned), which is open, to the destination `(server IP, p)` where the server IP is the
+    one the host part resolved to and `p` belongs to the set denoted by the port expression
+    after the last colon.  It never panics and never uses a closed socket. -/
+theorem writes_in_set (R : List Char → Option IP) (cs : List Char) (a : HopAddr)
+    (hres : resolveUDPHopAddr R cs = .ok a)
+    (idx : Nat) (hidx : idx < (addrs a).length)
+    (sched : List Label) (hs : SchedOK (addrs a).length sched) :
+    let s := Reach (addrs a) idx sched
     (step s .write).2 = .writeClosed ∧ s.closed = true ∨
-    ∃ p, (step s .write).2 = .wrote s.cur p ∧ s.cur + 1 = s.mark ∧ (s.sock s.cur).closed = false ∧
-      p ∈ ports u ∧ contains u p = true ∧ p ≤ 65535 := by
+    ∃ p, (step s .write).2 = .wrote s.cur (a.ip, p) ∧ s.cur + 1 = s.mark ∧
+      (s.sock s.cur).closed = false ∧
+      ∃ host port u, SplitsAs cs host port ∧ R host = some a.ip ∧ parseChars port = some u ∧
+        contains u p = true ∧ p ≤ 65535 := by
   intro s
-  have hinv : Inv (ports u) s := run_inv true (init_inv hidx) sched hs
-  have hpe := ports_exact cs u hparse
+  obtain ⟨host, port, ip, u, hsp, hR, hparse, ha⟩ := (resolve_ok_iff R cs a).mp hres
+  have hinv : Inv (addrs a) s := run_inv true (init_inv hidx) sched hs
+  have hpe := ports_exact port u hparse
   by_cases hc : s.closed = true
   · left; exact ⟨by simp [step, stepG, write, hc], hc⟩
   · right
@@ -168,12 +174,18 @@ theorem writes_in_set (cs : List Char) (u : PU) (hparse : parseChars cs = some u
     have hlt := hinv.idx_ok hc'
     have hports := hinv.ports_eq hc'
     have hlive := (hinv.live_open hc').1
-    refine ⟨(ports u)[s.addrIndex], ?_, hinv.cur_newest, hlive, List.getElem_mem hlt, ?_, ?_⟩
+    have hlt' : s.addrIndex < a.ports.length := by simpa [addrs] using hlt
+    have hget : (addrs a)[s.addrIndex] = (a.ip, a.ports[s.addrIndex]) := by simp [addrs]
+    have hpeq : ∀ x, x ∈ a.ports → x ∈ ports u := by
+      intro x hx; rw [ha] at hx; exact hx
+    have hmem : a.ports[s.addrIndex] ∈ ports u := hpeq _ (List.getElem_mem hlt')
+    refine ⟨a.ports[s.addrIndex], ?_, hinv.cur_newest, hlive, host, port, u, hsp, ?_, hparse, ?_, ?_⟩
     · simp only [step, stepG, write, hc', Bool.false_eq_true, if_false, hports]
-      rw [List.getElem?_eq_getElem hlt]
+      rw [List.getElem?_eq_getElem hlt, hget]
       simp [hlive]
-    · exact (hpe.1 _).mp (List.getElem_mem hlt)
-    · exact hpe.2.2.2.1 _ (List.getElem_mem hlt)
+    · rw [hR, ha]
+    · exact (hpe.1 _).mp hmem
+    · exact hpe.2.2.2.1 _ hmem
 
 example : SchedOK 3 [.hop true 2, .write, .hop false 0, .recv 0 [1], .close, .hop true 1] := by
   intro l hl; simp at hl; rcases hl with h | h | h | h | h | h <;> subst h <;> simp [LabelOK]
@@ -182,7 +194,7 @@ example : SchedOK 3 [.hop true 2, .write, .hop false 0, .recv 0 [1], .close, .ho
     one, at most two sockets are open, the current socket is the newest one created; while
     the connection is open the current and the previous socket ARE open; and a failed
     listen changes nothing at all. -/
-theorem census (P : List Nat) (idx : Nat) (hidx : idx < P.length)
+theorem census (P : List Dest) (idx : Nat) (hidx : idx < P.length)
     (sched : List Label) (hs : SchedOK P.length sched) :
     let s := Reach P idx sched
     (∀ k, k < s.mark → (s.sock k).closed = false → k = s.cur ∨ s.prev = some k) ∧
@@ -201,7 +213,7 @@ theorem census (P : List Nat) (idx : Nat) (hidx : idx < P.length)
     on it (or on the current socket) is appended to the receive queue whenever the queue
     has room; a hop never touches the queue; and a parked reader receives exactly the
     oldest queued packet. -/
-theorem prev_still_delivers (P : List Nat) (idx : Nat) (hidx : idx < P.length)
+theorem prev_still_delivers (P : List Dest) (idx : Nat) (hidx : idx < P.length)
     (sched : List Label) (hs : SchedOK P.length sched) :
     let s := Reach P idx sched
     ∀ k, s.closed = false → (s.prev = some k ∨ k = s.cur) →
@@ -263,7 +275,7 @@ theorem prev_still_delivers (P : List Nat) (idx : Nat) (hidx : idx < P.length)
     hops do nothing: a hop step is the identity); writes fail; and — provided no ReadFrom
     was already parked at its select when Close ran — no read in `b` ever returns a packet
     or a queued timeout, and a read that starts fails with ErrClosed (repaired code). -/
-theorem close_all (P : List Nat) (idx : Nat) (hidx : idx < P.length)
+theorem close_all (P : List Dest) (idx : Nat) (hidx : idx < P.length)
     (a b : List Label) (ha : SchedOK P.length a) (hb : SchedOK P.length b) :
     let s0 := Reach P idx a
     let t := (step s0 .close).1
@@ -298,38 +310,129 @@ theorem close_all (P : List Nat) (idx : Nat) (hidx : idx < P.length)
     queued, Close returns, and a read issued afterwards returns the packet when the select
     picks the queue.  The same history on the repaired code fails with ErrClosed. -/
 theorem d10_pinned_counterexample :
-    traceG false (initSt [443] 0) [.recv 0 [7], .close, .readBegin, .readSelect true 2048]
+    traceG false (initSt [([], 443)] 0) [.recv 0 [7], .close, .readBegin, .readSelect true 2048]
       = [.queued, .closeOk, .readWaiting, .readPkt [7]] ∧
-    traceG true (initSt [443] 0) [.recv 0 [7], .close, .readBegin, .readSelect true 2048]
+    traceG true (initSt [([], 443)] 0) [.recv 0 [7], .close, .readBegin, .readSelect true 2048]
       = [.queued, .closeOk, .readErrClosed, .idle] := by
   decide
 
 /-- no step of any schedule panics (index out of range on `Addrs`, `rand.Intn(0)`) -/
-theorem no_panic (P : List Nat) (idx : Nat) (hidx : idx < P.length)
+theorem no_panic (P : List Dest) (idx : Nat) (hidx : idx < P.length)
     (sched : List Label) (hs : SchedOK P.length sched) (l : Label) :
     (step (Reach P idx sched) l).2 ≠ .panic :=
   step_no_panic true (run_inv true (init_inv hidx) sched hs) l
 
-/-- creation: `NewUDPHopPacketConn` on the ports of a parsed expression never panics, fails
-    exactly when the interval is invalid or the first listen fails (then no socket exists),
-    and otherwise starts in the initial state (one open socket). -/
-theorem new_conn (cs : List Char) (u : PU) (hparse : parseChars cs = some u)
+/-- creation: `NewUDPHopPacketConn` on the address list of a resolved address never panics,
+    fails exactly when the interval is invalid or the first listen fails (then no socket
+    exists), and otherwise starts in the initial state (one open socket). -/
+theorem new_conn (R : List Char → Option IP) (cs : List Char) (a : HopAddr)
+    (hres : resolveUDPHopAddr R cs = .ok a)
     (iv : Interval) (listenOk : Bool) (idx : Nat) :
-    newConn (ports u) iv listenOk idx =
-      if (normalized iv).isSome ∧ listenOk = true then .ok (initSt (ports u) idx) else .reject := by
-  have hne := (ports_exact cs u hparse).2.2.2.2
+    newConn (addrs a) iv listenOk idx =
+      if (normalized iv).isSome ∧ listenOk = true then .ok (initSt (addrs a) idx) else .reject := by
+  obtain ⟨host, port, ip, u, _, _, hparse, ha⟩ := (resolve_ok_iff R cs a).mp hres
+  have hne := (ports_exact port u hparse).2.2.2.2
+  have hne' : (addrs a).isEmpty = false := by
+    rw [ha]
+    simp only [addrs]
+    cases hp : ports u with
+    | nil => exact absurd hp hne
+    | cons _ _ => rfl
   unfold newConn
   cases hn : normalized iv with
   | none => simp
   | some c =>
     cases listenOk with
     | false => simp
-    | true =>
-      have : (ports u).isEmpty = false := by
-        cases hp : ports u with
-        | nil => exact absurd hp hne
-        | cons _ _ => rfl
-      simp [this]
+    | true => simp [hne']
+
+/-! ## The hop address (addr.go) -/
+
+/-- `resolve_spec`: ResolveUDPHopAddr accepts an address string exactly when it splits as
+    `host:portexpr` / `[host]:portexpr` (net.SplitHostPort: the port starts after the LAST
+    colon, brackets only around the host, no other colon), the host resolves, and the port
+    expression is well formed; the result then carries the resolved IP, `Ports()` of the
+    parsed union (so: exactly the denoted set, strictly increasing), and the expression text.
+    Otherwise the error is the first of: split error, resolve error, InvalidPortError. -/
+theorem resolve_spec (R : List Char → Option IP) (cs : List Char) :
+    (∀ a, resolveUDPHopAddr R cs = .ok a ↔
+      ∃ host port ip u, SplitsAs cs host port ∧ R host = some ip ∧ parseChars port = some u ∧
+        a = ⟨ip, ports u, port⟩) ∧
+    ((∃ a, resolveUDPHopAddr R cs = .ok a) ↔
+      ∃ host port, SplitsAs cs host port ∧ (R host).isSome = true ∧ ∃ L, Denotes port L) ∧
+    (∀ e, resolveUDPHopAddr R cs = .error (.split e) ↔ splitHostPort cs = .error e) ∧
+    (∀ a, resolveUDPHopAddr R cs = .ok a →
+      (∀ p, p ∈ a.ports → p ≤ 65535) ∧ a.ports ≠ [] ∧ List.Pairwise (· < ·) a.ports) := by
+  refine ⟨resolve_ok_iff R cs, ?_, ?_, ?_⟩
+  · constructor
+    · rintro ⟨a, ha⟩
+      obtain ⟨host, port, ip, u, hs, hr, hu, _⟩ := (resolve_ok_iff R cs a).mp ha
+      exact ⟨host, port, hs, by simp [hr], parse_sound hu⟩
+    · rintro ⟨host, port, hs, hr, L, hL⟩
+      obtain ⟨u, hu, _⟩ := parse_complete hL
+      obtain ⟨ip, hip⟩ := Option.isSome_iff_exists.mp hr
+      exact ⟨_, (resolve_ok_iff R cs _).mpr ⟨host, port, ip, u, hs, hip, hu, rfl⟩⟩
+  · intro e
+    unfold resolveUDPHopAddr
+    cases hs : splitHostPort cs with
+    | error e' => simp
+    | ok hp =>
+      obtain ⟨host, port⟩ := hp
+      simp only
+      cases R host with
+      | none => simp
+      | some ip => cases parseChars port <;> simp
+  · intro a ha
+    obtain ⟨host, port, ip, u, _, _, hu, haeq⟩ := (resolve_ok_iff R cs a).mp ha
+    have hpe := ports_exact port u hu
+    rw [haeq]
+    exact ⟨hpe.2.2.2.1, hpe.2.2.2.2, hpe.2.1⟩
+
+/-- a resolver that knows one literal -/
+def exampleR : List Char → Option IP := fun h => if h = "2001:db8::1".toList then some [byte 0x20, byte 1] else none
+
+example : resolveUDPHopAddr exampleR "[2001:db8::1]:443".toList
+    = .ok ⟨[byte 0x20, byte 1], [443], "443".toList⟩ := by rfl
+example : resolveUDPHopAddr exampleR "[2001:db8::1]:80,443-445".toList
+    = .ok ⟨[byte 0x20, byte 1], [80, 443, 444, 445], "80,443-445".toList⟩ := by rfl
+example : resolveUDPHopAddr exampleR "2001:db8::1:443".toList = .error (.split .tooManyColons) ∧
+    resolveUDPHopAddr exampleR "[2001:db8::1]".toList = .error (.split .missingPort) ∧
+    resolveUDPHopAddr exampleR "[2001:db8::1]:".toList = .error .badPort ∧
+    resolveUDPHopAddr exampleR "[2001:db8::1]:80,".toList = .error .badPort ∧
+    resolveUDPHopAddr exampleR "[2001:db8::2]:80".toList = .error .resolve :=
+  ⟨by rfl, by rfl, by rfl, by rfl, by rfl⟩
+
+/-- `addrs_exact`: `addrs()` is the list `[(ip, p) | p ∈ Ports]` in the same order: one entry
+    per port, each with the one resolved IP, the i-th entry carrying the i-th port. -/
+theorem addrs_exact (a : HopAddr) :
+    addrs a = a.ports.map (fun p => (a.ip, p)) ∧
+    (addrs a).length = a.ports.length ∧
+    (∀ d, d ∈ addrs a ↔ d.1 = a.ip ∧ d.2 ∈ a.ports) ∧
+    (∀ i (h : i < a.ports.length), (addrs a)[i]? = some (a.ip, a.ports[i])) ∧
+    (a.ports.Nodup → (addrs a).Nodup) := by
+  refine ⟨rfl, by simp [addrs], ?_, ?_, ?_⟩
+  · intro d
+    simp only [addrs, List.mem_map]
+    constructor
+    · rintro ⟨p, hp, rfl⟩; exact ⟨rfl, hp⟩
+    · rintro ⟨h1, h2⟩; exact ⟨d.2, h2, by rw [← h1]⟩
+  · intro i h; simp [addrs, h]
+  · intro hn
+    simp only [addrs, List.Nodup, List.pairwise_map] at hn ⊢
+    exact hn.imp (fun h e => h (by simpa using e))
+
+/-- `String()` = JoinHostPort(IP text, port expression) splits back into exactly these two
+    (brackets are added iff the IP text contains a colon), `Network()` is "udphop". -/
+theorem string_resplits (R : List Char → Option IP) (ipText : IP → List Char)
+    (cs : List Char) (a : HopAddr) (hres : resolveUDPHopAddr R cs = .ok a)
+    (hclean : '[' ∉ ipText a.ip ∧ ']' ∉ ipText a.ip) :
+    splitHostPort (toText ipText a) = .ok (ipText a.ip, a.portStr) ∧ network = "udphop" := by
+  obtain ⟨host, port, ip, u, hs, _, _, ha⟩ := (resolve_ok_iff R cs a).mp hres
+  refine ⟨?_, rfl⟩
+  apply splitHostPort_complete
+  have : a.portStr = port := by rw [ha]
+  rw [toText, this]
+  exact join_splits hclean.1 hclean.2 hs.port_clean
 
 /-! ## Hop interval -/
 
